@@ -10,7 +10,10 @@ ASSUMPTIONS = [
     "wants_update: the f64 ratio tests are restated in integer arithmetic (equivalent for |seconds| < 2^45)",
     "sync_converges_partial is about the class's key-state machine (Ca/KeySync.lean) against a parent that answers every request "
     "with a certificate for the offered resources, fixed clock; its tie to the two-aggregate exchange is the lock-step run",
-    "shrink_active_child_partial assumes a class without stale suspended entries (what F-C02-1 breaks) and a duplicate-free issued map",
+    "shrink_active_child_partial assumes a class without stale suspended entries (what F-C02-1 breaks) and a duplicate-free issued map; "
+    "shrink_active_child_quiet_partial proves both for every history in which no certificate is issued for a key that still has a "
+    "suspended entry (no unsuspension of a suspended child); the link from an active child's key in use to the issued map "
+    "additionally needs that no two children share a key (not proved; the oracle ActiveChildHasCert checks it on the implementation)",
     "HashMap iteration order is arbitrary: the model visits entries in insertion order, the driver compares sorted",
 ]
 
@@ -30,7 +33,8 @@ MANIFEST = {
             "limit(issuer ∩ entitlement) (issued_exact); in every state reachable by any command history no issued child certificate "
             "exceeds the current key's certificate, and the command that receives a smaller certificate or activates a new key restores "
             "that itself (never_overclaims, shrink_in_same_command, activation_keeps_containment); the exact effect of the shrink on a "
-            "class without stale entries (shrink_active_child_partial); the stale suspended entry left by unsuspension makes a later "
+            "class without stale entries (shrink_active_child_partial), which every class is in histories without an unsuspension of a "
+            "suspended child (quiet_classes_tidy, shrink_active_child_quiet_partial, unbounded); the stale suspended entry left by unsuspension makes a later "
             "shrink withdraw an active child's certificate and can leave an orphan certificate published that over-claims after the next "
             "shrink (not_shrink_active_child, not_never_overclaims_published: concrete witnesses, replayed, F-C02-1); a converged child's "
             "sync emits no event and changes nothing (sync_idempotent, for every state); every well-formed key state converges within two "
